@@ -442,3 +442,60 @@ def loc(body, block=None):
     if (not l or l <= 1) and body.blocks[block]["s"]:
         l = body.blocks[block]["s"][0].get("l")
     return "%s:%s" % (body.file, l)
+
+
+def _resolve_bool(body, place, target, depth=0):
+    """If `place` is a copy / negation / tuple field of local `target`,
+    return the polarity (True = same, False = negated), else None."""
+    if depth > 6 or place is None:
+        return None
+    l = place_local(place)
+    proj = place_proj(place)
+    d = defs_of(body).get(l, [])
+    if not proj:
+        if l == target:
+            return True
+        whole = [x for x in d if not x[2] and x[1].get("d") == str(l)]
+        if len(whole) != 1:
+            return None
+        s = whole[0][1]
+        if s["k"] == "use":
+            return _resolve_bool(body, op_place(s["ops"][0]), target, depth + 1)
+        if s["k"] == "un" and s.get("op") == "Not":
+            r = _resolve_bool(body, op_place(s["ops"][0]), target, depth + 1)
+            return None if r is None else (not r)
+        return None
+    m = None
+    if len(proj) == 1 and proj[0].startswith("f") and ":" in proj[0]:
+        try:
+            m = int(proj[0][1:].split(":", 1)[0])
+        except ValueError:
+            m = None
+    if m is None:
+        return None
+    whole = [x for x in d if not x[2] and x[1].get("d") == str(l) and x[1].get("k") == "agg" and x[1].get("ak") == "tuple"]
+    if len(whole) != 1 or m >= len(whole[0][1]["ops"]):
+        return None
+    return _resolve_bool(body, op_place(whole[0][1]["ops"][m]), target, depth + 1)
+
+
+def infeasible_edges(body, local, value):
+    """CFG edges that cannot be taken when bool local `local` has `value`."""
+    out = set()
+    for i in live_blocks(body):
+        t = body.blocks[i].get("term")
+        if not t or t["k"] != "switch" or t.get("dty") != "bool":
+            continue
+        pol = _resolve_bool(body, op_place(t["d"]), local)
+        if pol is None:
+            continue
+        operand_true = value if pol else (not value)
+        false_t = None
+        for v, bb in t["vals"]:
+            if v == 0:
+                false_t = bb
+        true_t = t["otherwise"]
+        if false_t is None:
+            continue
+        out.add((i, false_t) if operand_true else (i, true_t))
+    return out
